@@ -74,7 +74,7 @@ def parse(s):
                     while True:
                         args.append(expr())
                         m3, t3 = peek()
-                        if t3 == ("sym", ","):
+                        if t3 == ("sym", ",") or (t3 == ("sym", "|") and t[1] == "alt"):
                             take()
                             continue
                         break
@@ -107,7 +107,7 @@ def parse(s):
                 node = ("var", t[1])
         else:
             raise TermError("unexpected %r in %r" % (t, s))
-        # postfix tuple projections `.0`
+        # postfix: tuple / field projections `.0` `.name`, variant downcasts `@Some`
         while True:
             m2, t2 = peek()
             if t2 == ("sym", "."):
@@ -118,7 +118,15 @@ def parse(s):
                     take()
                     node = ("proj", node, t3[1])
                     continue
+                if t3 is not None and t3[0] == "name" and node[0] != "var":
+                    take()
+                    node = ("proj", node, t3[1])
+                    continue
                 pos[0] = save
+            if t2 is not None and t2[0] == "name" and t2[1].startswith("@") and node[0] != "var":
+                take()
+                node = ("proj", node, t2[1])
+                continue
             break
         return node
 
